@@ -85,6 +85,13 @@ def shard_e1(col, shard, ngrammars, ninputs):
         col.count('family.nullable-body-' + wrap)
         for t in [t[:40] for t in G.gen_inputs(rng, g, 6)] + failing_after_cut_inputs(rng, g, 8):
             cases.append(R.Case(g, t))
+    # outer choices whose earlier alternative holds an inner construct with cuts in its options (the last included) and then fails
+    from props.c02 import cut_scope_grammar
+    for _ in range(max(2, ngrammars // 2)):
+        g, texts = cut_scope_grammar(rng)
+        col.count('family.cut-scope')
+        for t in texts:
+            cases.append(R.Case(g, t))
     R.differential(col, mr, cases, 'E1cut')
     if cases:
         col.sample(cases[len(cases) // 3].describe())
